@@ -14,6 +14,7 @@ sys.path.insert(0, ROOT)
 sys.path.insert(0, os.environ.get('PYVC_REPO', '/repo'))
 sys.setrecursionlimit(10000)
 sys.dont_write_bytecode = True
+from pyvc.values import Unsupported as Unsupported_  # noqa: E402
 
 
 def load_all():
@@ -74,7 +75,12 @@ def _work(job):
                 old, new = spec_[1], spec_[2]
             else:
                 old, new = spec_
-            mut = {target: verify.mutate_function(tf, old, new)}
+            try:
+                mut = {target: verify.mutate_function(tf, old, new)}
+            except (ValueError, Unsupported_) as ex_:
+                # the text the canary replaces is gone: the source changed; nothing to learn from this mutant
+                return kind, name, {'unit': cname, 'mutation': "%s: %r -> %r" % (target, old, new), 'killed': False, 'flagged': True,
+                                    'failed_clauses': [], 'witness': None, 'error': 'not applicable: %s' % ex_, 'unsupported': [], 'secs': 0.0}
             r = verify.verify_unit(c, mutate=mut, do_cross=False, both=False)
             s = r.summary()
             killed = len(s['failed']) > 0
